@@ -106,6 +106,9 @@ theories/V2/Planted.vos theories/V2/Planted.vok theories/V2/Planted.required_vos
 theories/V2/Glue.vo theories/V2/Glue.glob theories/V2/Glue.v.beautified theories/V2/Glue.required_vo: theories/V2/Glue.v theories/Base/Utf8.vo theories/Base/Float64.vo theories/Base/Sort.vo theories/Base/Float64Proof.vo theories/Base/SortProof.vo theories/V2/SSet.vo theories/V2/Match.vo theories/V2/ScoringProof.vo theories/V2/MatchND.vo theories/V2/MatchWF.vo theories/V2/Tok.vo theories/V2/TokInv.vo
 theories/V2/Glue.vio: theories/V2/Glue.v theories/Base/Utf8.vio theories/Base/Float64.vio theories/Base/Sort.vio theories/Base/Float64Proof.vio theories/Base/SortProof.vio theories/V2/SSet.vio theories/V2/Match.vio theories/V2/ScoringProof.vio theories/V2/MatchND.vio theories/V2/MatchWF.vio theories/V2/Tok.vio theories/V2/TokInv.vio
 theories/V2/Glue.vos theories/V2/Glue.vok theories/V2/Glue.required_vos: theories/V2/Glue.v theories/Base/Utf8.vos theories/Base/Float64.vos theories/Base/Sort.vos theories/Base/Float64Proof.vos theories/Base/SortProof.vos theories/V2/SSet.vos theories/V2/Match.vos theories/V2/ScoringProof.vos theories/V2/MatchND.vos theories/V2/MatchWF.vos theories/V2/Tok.vos theories/V2/TokInv.vos
+theories/V2/ScoringNoD3.vo theories/V2/ScoringNoD3.glob theories/V2/ScoringNoD3.v.beautified theories/V2/ScoringNoD3.required_vo: theories/V2/ScoringNoD3.v theories/Base/Float64.vo theories/Base/Float64Proof.vo theories/V2/Match.vo theories/V2/ScoringProof.vo theories/V2/Glue.vo
+theories/V2/ScoringNoD3.vio: theories/V2/ScoringNoD3.v theories/Base/Float64.vio theories/Base/Float64Proof.vio theories/V2/Match.vio theories/V2/ScoringProof.vio theories/V2/Glue.vio
+theories/V2/ScoringNoD3.vos theories/V2/ScoringNoD3.vok theories/V2/ScoringNoD3.required_vos: theories/V2/ScoringNoD3.v theories/Base/Float64.vos theories/Base/Float64Proof.vos theories/V2/Match.vos theories/V2/ScoringProof.vos theories/V2/Glue.vos
 theories/V2/Shift.vo theories/V2/Shift.glob theories/V2/Shift.v.beautified theories/V2/Shift.required_vo: theories/V2/Shift.v theories/Base/Sort.vo theories/V2/SSet.vo theories/V2/Planted.vo theories/V2/MatchWF.vo
 theories/V2/Shift.vio: theories/V2/Shift.v theories/Base/Sort.vio theories/V2/SSet.vio theories/V2/Planted.vio theories/V2/MatchWF.vio
 theories/V2/Shift.vos theories/V2/Shift.vok theories/V2/Shift.required_vos: theories/V2/Shift.v theories/Base/Sort.vos theories/V2/SSet.vos theories/V2/Planted.vos theories/V2/MatchWF.vos
@@ -118,9 +121,9 @@ theories/V2/NormTables.vos theories/V2/NormTables.vok theories/V2/NormTables.req
 theories/Props/C20.vo theories/Props/C20.glob theories/Props/C20.v.beautified theories/Props/C20.required_vo: theories/Props/C20.v theories/Cont/SetImpl.vo theories/Cont/SetRefine.vo theories/Cont/Heap.vo theories/Cont/HeapInv.vo
 theories/Props/C20.vio: theories/Props/C20.v theories/Cont/SetImpl.vio theories/Cont/SetRefine.vio theories/Cont/Heap.vio theories/Cont/HeapInv.vio
 theories/Props/C20.vos theories/Props/C20.vok theories/Props/C20.required_vos: theories/Props/C20.v theories/Cont/SetImpl.vos theories/Cont/SetRefine.vos theories/Cont/Heap.vos theories/Cont/HeapInv.vos
-theories/Props/C02.vo theories/Props/C02.glob theories/Props/C02.v.beautified theories/Props/C02.required_vo: theories/Props/C02.v theories/Base/Utf8.vo theories/Base/Float64.vo theories/Base/Sort.vo theories/Base/SortProof.vo theories/Base/Float64Proof.vo theories/V2/Tok.vo theories/V2/SSet.vo theories/V2/Match.vo theories/V2/ScoringProof.vo theories/V2/MatchND.vo theories/V2/MatchWF.vo theories/V2/Glue.vo
-theories/Props/C02.vio: theories/Props/C02.v theories/Base/Utf8.vio theories/Base/Float64.vio theories/Base/Sort.vio theories/Base/SortProof.vio theories/Base/Float64Proof.vio theories/V2/Tok.vio theories/V2/SSet.vio theories/V2/Match.vio theories/V2/ScoringProof.vio theories/V2/MatchND.vio theories/V2/MatchWF.vio theories/V2/Glue.vio
-theories/Props/C02.vos theories/Props/C02.vok theories/Props/C02.required_vos: theories/Props/C02.v theories/Base/Utf8.vos theories/Base/Float64.vos theories/Base/Sort.vos theories/Base/SortProof.vos theories/Base/Float64Proof.vos theories/V2/Tok.vos theories/V2/SSet.vos theories/V2/Match.vos theories/V2/ScoringProof.vos theories/V2/MatchND.vos theories/V2/MatchWF.vos theories/V2/Glue.vos
+theories/Props/C02.vo theories/Props/C02.glob theories/Props/C02.v.beautified theories/Props/C02.required_vo: theories/Props/C02.v theories/Base/Utf8.vo theories/Base/Float64.vo theories/Base/Sort.vo theories/Base/SortProof.vo theories/Base/Float64Proof.vo theories/V2/Tok.vo theories/V2/SSet.vo theories/V2/Match.vo theories/V2/ScoringProof.vo theories/V2/MatchND.vo theories/V2/MatchWF.vo theories/V2/Glue.vo theories/V2/ScoringNoD3.vo
+theories/Props/C02.vio: theories/Props/C02.v theories/Base/Utf8.vio theories/Base/Float64.vio theories/Base/Sort.vio theories/Base/SortProof.vio theories/Base/Float64Proof.vio theories/V2/Tok.vio theories/V2/SSet.vio theories/V2/Match.vio theories/V2/ScoringProof.vio theories/V2/MatchND.vio theories/V2/MatchWF.vio theories/V2/Glue.vio theories/V2/ScoringNoD3.vio
+theories/Props/C02.vos theories/Props/C02.vok theories/Props/C02.required_vos: theories/Props/C02.v theories/Base/Utf8.vos theories/Base/Float64.vos theories/Base/Sort.vos theories/Base/SortProof.vos theories/Base/Float64Proof.vos theories/V2/Tok.vos theories/V2/SSet.vos theories/V2/Match.vos theories/V2/ScoringProof.vos theories/V2/MatchND.vos theories/V2/MatchWF.vos theories/V2/Glue.vos theories/V2/ScoringNoD3.vos
 theories/Props/C03.vo theories/Props/C03.glob theories/Props/C03.v.beautified theories/Props/C03.required_vo: theories/Props/C03.v theories/Base/Utf8.vo theories/Base/Float64.vo theories/Base/Sort.vo theories/Base/SortProof.vo theories/Base/Float64Proof.vo theories/V2/Tok.vo theories/V2/SSet.vo theories/V2/Match.vo theories/V2/ScoringProof.vo theories/V2/MatchND.vo theories/V2/MatchWF.vo theories/V2/TokInv.vo theories/V2/Glue.vo
 theories/Props/C03.vio: theories/Props/C03.v theories/Base/Utf8.vio theories/Base/Float64.vio theories/Base/Sort.vio theories/Base/SortProof.vio theories/Base/Float64Proof.vio theories/V2/Tok.vio theories/V2/SSet.vio theories/V2/Match.vio theories/V2/ScoringProof.vio theories/V2/MatchND.vio theories/V2/MatchWF.vio theories/V2/TokInv.vio theories/V2/Glue.vio
 theories/Props/C03.vos theories/Props/C03.vok theories/Props/C03.required_vos: theories/Props/C03.v theories/Base/Utf8.vos theories/Base/Float64.vos theories/Base/Sort.vos theories/Base/SortProof.vos theories/Base/Float64Proof.vos theories/V2/Tok.vos theories/V2/SSet.vos theories/V2/Match.vos theories/V2/ScoringProof.vos theories/V2/MatchND.vos theories/V2/MatchWF.vos theories/V2/TokInv.vos theories/V2/Glue.vos
